@@ -8,7 +8,7 @@
    transferred to R by the ring homomorphism K -> R (Base/KtoR.v). *)
 From Coq Require Import Reals ZArith QArith List String Bool.
 From Verif Require Import Scalar RInst KField KtoR Quat QuatAlg GroupK Groups GroupFacts
-  SymDot SymDotR SymDotK TwoSymAll SymDotCor GroupReal SymDotGroups CrossProofs.
+  SymDot SymDotR SymDotK TwoSymAll SymDotCor GroupReal SymDotGroups CrossProofs NdIndex NdTranspose DotOuter.
 Local Open Scope R_scope.
 
 (* the algebraic heart, for ALL quaternions: <M, ~g2*g1> = Re (g2 * M * ~g1) *)
@@ -108,6 +108,19 @@ Proof.
   - intros; apply named_group_dot_invariant; assumption.
 Qed.
 Print Assumptions C04_named_groups_symmetric_invariant.
+
+(* the outer form: Orientation.dot_outer returns an array of shape self.shape ++ other.shape
+   whose element (i ++ j) is the symmetry-reduced dot product of self[i] and other[j], for
+   ALL shapes (also of different numbers of dimensions: repair 16d001b) -- the model
+   Model/DotOuter.dot_outer_model applies the code's own transposition order *)
+Theorem C04_dot_outer_layout :
+  forall (U : list (rot (T:=R))) (A B : list (quat (T:=R))) (sa sb i j : list nat) (dq : quat (T:=R)),
+  List.length A = size sa -> List.length B = size sb -> valid sa i -> valid sb j ->
+  let '(s, l) := dot_outer_model ROps U A B sa sb in
+  s = (sa ++ sb)%list /\
+  nth (ravel (sa ++ sb)%list (i ++ j)%list) l 0 = code_dot ROps U (nth (ravel sa i) A dq) (nth (ravel sb j) B dq).
+Proof. exact (dot_outer_layout ROps). Qed.
+Print Assumptions C04_dot_outer_layout.
 
 Example C04_nonvacuous : exists g h, In g groups /\ In h groups /\ g_name g <> g_name h.
 Proof.
